@@ -37,6 +37,11 @@ class C13(Prop):
                 continue
             yield {'src': src, 'high': rng.choice([0, 4, 8, 12])}
 
+    def lead(self, case, ctx, res):
+        st = case['steps']
+        if len(st) == 1 and st[0].get('reset'):
+            self.execute({'src': st[0]['src'], 'high': (st[0].get('safeMode') or 0) & 12, 'sentinels': None}, ctx, res)
+
     def execute(self, case, ctx, res):
         outs = {}
         for pol in (1, 2, 3):
@@ -481,6 +486,18 @@ class C19(Prop):
             src = '\n\n'.join(p for p in parts if not p.startswith('.safeMode') or p.startswith(".safeMode = '0'") or f == 'option-value')
             yield {'src': src, 'safeMode': mode, 'fault': f, 'expect': expect, 'nkinds': len(kinds)}
 
+    def lead(self, case, ctx, res):
+        # (what a well-formed document is cannot be read off an arbitrary source; that diagnostics never alter the output can)
+        outs = []
+        for cb in (True, False):
+            ctx.impl.reset_process()
+            outs.append([ctx.impl.render(x['src'], **dict(step_kwargs(x), callback=cb and bool(x.get('callback')))) for x in case['steps']])
+        res.oracle_checks += 1
+        for a, b in zip(*outs):
+            if a[0] != b[0] or (a[0] == 'ok' and a[1] != b[1]):
+                res.violation('html differs with and without a callback', case, [short(a), short(b)])
+                return
+
     def execute(self, case, ctx, res):
         st = {'src': case['src'], 'safeMode': case['safeMode'], 'reset': True, 'callback': True}
         outs, _, ok = run_session(ctx, [st], res, case)
@@ -569,6 +586,13 @@ class C12(Prop):
                     opts.remove('+spans')
                 sep = rng.choice([' ', ' ', '  '])
                 line = '.' + rng.choice(['', 'k1 ']) + sep.join(opts)
+                if rng.random() < 0.15:
+                    # F37: the line between two items of a list - the options end with the item that follows, the block after the
+                    # list is processed as if they had never been there
+                    item = rng.choice(['- b', '- b\n\n', 't:: b', '. b'])
+                    yield {'options': opts, 'between_items': True, 'cls': 'k1 ' in line, 'safeMode': mode,
+                           'with': "{mm} = 'MM'\n\n%s a\n%s\n%s\n\n\nT {mm} *b* &c" % (item.split()[0].replace('t::', 't::'), line, item.rstrip('\n'))}
+                    continue
                 # F37: before a header or a list the options end with that block too (they alter nothing there, and nothing after it)
                 kinds = rng.choice([('para', 'code'), ('code', 'para'), ('para', 'para'), ('code', 'code'),
                                     ('head', 'para'), ('head', 'code'), ('list', 'para'), ('list', 'code')])
@@ -652,6 +676,10 @@ class C12(Prop):
                 res.oracle_checks += 1
                 words = [w for w in re.findall(r'[A-Za-z][\w-]*', case['nearmiss']) if w not in ('c1', 'c2')]
                 leaked = [w for w in words if re.search(r'<[a-z][^<>]* (?:class|id)="[^"]*\b%s\b' % re.escape(w), a[0][1])]
+                first_word = re.findall(r'[A-Za-z][\w-]*', case['nearmiss'])[0]
+                if first_word not in re.sub(r'<[^<>]*>', '', a[0][1]):
+                    res.violation('a paragraph that only looks like a Block Attributes line was not rendered as text', case, short(a[0][1]))
+                    return
                 if leaked or not a[0][1].endswith('<p>next <em>para</em></p>'):
                     res.violation('words of a paragraph that only looks like a Block Attributes line were left pending as attributes',
                                   case, short(a[0][1]))
@@ -671,6 +699,16 @@ class C12(Prop):
                     if marker in line and a[0][1].count(marker) > 1:
                         res.violation('Block Attributes were applied to more than the first tag of the target block', case, short(a[0][1]))
                         return
+            return
+        if case.get('between_items'):
+            if a[0][0] != 'ok':
+                res.count('not_ok')
+                return
+            res.oracle_checks += 1
+            mm = 'MM' if (mode == 0 or mode & 8) else '{mm}'
+            if not nonl(a[0][1]).endswith('<p>T %s <em>b</em> &amp;c</p>' % mm):
+                res.violation('block options given between two list items reached the block after the list', case, short(a[0][1]))
+            res.count('options_between_items')
             return
         if case.get('options'):
             if a[0][0] != 'ok':
@@ -873,13 +911,19 @@ class C11(Prop):
                 elif k < 0.9:
                     # (the last one matches everything up to the last visible character: not the whole of a value that ends in a line
                     # break - the match is a full-string match)
-                    pat = rng.choice(['', table[name].split('\n')[0][:3] + '.*', '.*', 'zzz', '[a-z]+', '[\\s\\S]*\\S'])
-                    keep = re.match('^%s\\Z' % pat, table[name]) is not None
+                    # F45: the pattern as a whole against the whole value - alternatives, a leading global flag
+                    first = re.escape(table[name].split('\n')[0][:2])
+                    pat = rng.choice(['', table[name].split('\n')[0][:3] + '.*', '.*', 'zzz', '[a-z]+', '[\\s\\S]*\\S', first + '|zzz', 'zzz|' + first + '.*',
+                                      '(?i).*', '(?s).+', first + '.*|'])
+                    try:
+                        keep = re.fullmatch(pat, table[name]) is not None
+                    except re.error:
+                        pat, keep = '.*', re.fullmatch('.*', table[name]) is not None
                     inv, val = '{%s=%s}' % (name, pat), ('' if keep else None)
                     kinds.add('inclusion')
                 else:
-                    pat = rng.choice(['', '.*', 'zzz', '[\\s\\S]*\\S'])
-                    keep = re.match('^%s\\Z' % pat, table[name]) is None
+                    pat = rng.choice(['', '.*', 'zzz', '[\\s\\S]*\\S', 'zzz|.', '(?i)ZZZ|[\\s\\S]+'])
+                    keep = re.fullmatch(pat, table[name]) is None
                     inv, val = '{%s!%s}' % (name, pat), ('' if keep else None)
                     kinds.add('exclusion')
                 w1, w2 = plain(rng, 1, 2), plain(rng, 1, 2)
@@ -1006,7 +1050,9 @@ class C17(Prop):
                      '// comment', '/*', '.cls', '.#id9 "color:red"', "{m9} = 'v'", "/teh/ = 'the'", "|code| = '+skip'", "~ = 'a|b'",
                      ".safeMode = '1'", ".htmlReplacement = 'zz'", '<image:http://a.b/i.png>', '<image:http://a.b/i.png|alt>', '<<#a1>>',
                      '>quote paragraph', '{m1} at line start', '<div>', '// t:: d', '# h:: d', '.cls x:: y', '/* t::: d',
-                     "{m9} = 'v' :: d", '.. 1) two', '//', '.. cls', '>> q', '"" cite']
+                     "{m9} = 'v' :: d", '.. 1) two', '//', '.. cls', '>> q', '"" cite',
+                     # F48: the escaped definition of a macro that exists (the backslash escapes the invocation it starts with)
+                     "{m1} = 'w'", "{m1?} = 'w'", "{m1} = 'two", "{m1|a} = 'w'"]
 
     def cases(self, ctx):
         rng = ctx.rng
